@@ -12,7 +12,7 @@ func init() {
 	core.RegisterProp(&core.Prop{ID: "C01", Run: runC01, Replay: replayC01})
 }
 
-var c01Opts = []string{"nil", "append", "idref", "emit"}
+var c01Opts = []string{"nil", "append", "idref", "emit", "append+rewrite"}
 
 func c01Config(opt string) *ygot.RFC7951JSONConfig {
 	switch opt {
@@ -22,6 +22,9 @@ func c01Config(opt string) *ygot.RFC7951JSONConfig {
 		return &ygot.RFC7951JSONConfig{PrependModuleNameIdentityref: true}
 	case "shadow":
 		return &ygot.RFC7951JSONConfig{AppendModuleName: true, PreferShadowPath: true}
+	case "append+rewrite":
+		// member names qualified with REWRITTEN module names must still be read back
+		return &ygot.RFC7951JSONConfig{AppendModuleName: true, RewriteModuleNames: map[string]string{"vt": "vtx", "vt-aug": "vt", "voc": "vocx"}}
 	}
 	return nil
 }
